@@ -188,8 +188,9 @@ def zero_strata(rng):
             for op in ("laplace", "divergence"):
                 out.append((strat_grid(rng, "cart", nax, rng.choice(choices), False), op, {}, f"cart{nax}:{op}:{pat}"))
         # every variant of the difference conserves on a fully periodic grid
-        out.append((strat_grid(rng, "cart", nax, [True] * nax, False), "divergence", {"method": rng.choice(["forward", "backward"])},
-                    f"cart{nax}:divergence-onesided:periodic"))
+        for mth in ("forward", "backward"):
+            out.append((strat_grid(rng, "cart", nax, [True] * nax, False), "divergence", {"method": mth},
+                        f"cart{nax}:divergence-{mth}:periodic"))
     for pat, choices in PER_PATTERNS[2].items():
         out.append((strat_grid(rng, "cart", 2, rng.choice(choices), False), "laplace",
                     {"corner_weight": rng.choice([0.5, 1 / 3, 0.25])}, f"cart2:laplace-9-point:{pat}"))
@@ -341,7 +342,7 @@ def run(ctx):
                 ctx.disagree("integral:" + rname, key, model, rr["integral"], "volume-weighted sum differs")
 
     # ---- zero leg: the property monitor (and the correspondence of the theorems' ghost-cell composition) ------------
-    n_zero = ctx.budget(120, 1200)
+    n_zero = ctx.budget(132, 1200)
     zjobs = []
     strata = zero_strata(rng)
     per_stratum = max(1, n_zero // len(strata))
